@@ -73,7 +73,16 @@ func (g *genCtx) leafItems() Doc {
 		}
 		return DObj{{"prefixItems", a}}
 	case 2:
-		return DObj{{"contains", pick(r, []Doc{DObj{{"type", DStr("string")}}, DObj{{"const", DNum("1")}}, DObj{{"minimum", DNum("2")}}})}}
+		o := DObj{{"contains", pick(r, []Doc{DObj{{"type", DStr("string")}}, DObj{{"const", DNum("1")}}, DObj{{"minimum", DNum("2")}}})}}
+		// the bounds change what contains asserts, never which items it evaluates
+		// (minContains 0 makes it assert nothing at all)
+		if r.chance(1, 2) {
+			o = append(o, DMem{"minContains", DNum(pick(r, []string{"0", "0", "1", "2"}))})
+		}
+		if r.chance(1, 4) {
+			o = append(o, DMem{"maxContains", DNum(pick(r, []string{"0", "1", "2"}))})
+		}
+		return o
 	case 3:
 		return DObj{{"prefixItems", DArr{DBool(true)}}, {"items", DObj{{"type", DStr("integer")}}}}
 	default:
